@@ -1,3 +1,3 @@
 package main
 
-import _ "verif/harness/internal/structural"
+import _ "gonum.org/v1/gonum/verifharness/internal/structural"
